@@ -180,7 +180,13 @@ Definition tiff_predictor (data : bytes) (ps : parms) : option bytes :=
                 let row_bytes := b7 / 8 in
                 if row_bytes =? 0 then None
                 else if negb ((len data) mod row_bytes =? 0) then None
-                else Some (tiff_rows (N.to_nat (len data / row_bytes)) (N.to_nat row_bytes) bpc colors samples data)
+                else
+                  (* no complete row (only possible for empty data here): `chunks_exact` yields nothing.
+                     Kept as a separate branch so that evaluation never converts a huge [row_bytes]
+                     (e.g. /Colors 2^32+12 with empty data) to a unary [nat]. *)
+                  let num_rows := len data / row_bytes in
+                  if num_rows =? 0 then Some []
+                  else Some (tiff_rows (N.to_nat num_rows) (N.to_nat row_bytes) bpc colors samples data)
             end
         end
     end.
